@@ -61,6 +61,20 @@ theorem errorsOf_eq_nil (outs : List Outcome) : errorsOf outs = [] ↔ ∀ o ∈
     | none => simp [errorsOf, ih]
     | some e => simp [errorsOf]
 
+/-- (definitional; demoted from the property theorems) -/
+theorem status_code_message (e : Err) :
+    statusCode e = (if e.kind = .admission then
+                      (match e.code with
+                       | some c => if c = 0 then 500 else c
+                       | none => 500)
+                    else 500) ∧
+    message e = (if e.str = "" then e.repr else e.str) := by
+  constructor
+  · rcases e with ⟨k, c, s, r⟩
+    cases k <;> cases c <;> simp [statusCode]
+  · by_cases hs : e.str = "" <;> simp [message, hs]
+
+
 /-! ### `dropEmpty` keeps the leaf function (on well-formed values) -/
 theorem dropEmptyKvs_cons_empty (k : String) (v : J) (rest : List (String × J))
     (h : dropEmpty v = .obj []) : dropEmptyKvs ((k, v) :: rest) = dropEmptyKvs rest := by
